@@ -40,6 +40,7 @@ type catchEvent struct {
 	activated       atomic.Bool
 	awaitingActions []chan IAction
 	once            sync.Once
+	running         atomic.Bool
 	satisfier       *logic.CatchEventSatisfier
 }
 
@@ -62,6 +63,7 @@ func newCatchEvent(wr *wiring, element *schema.CatchEvent) (evt *catchEvent, err
 
 func (evt *catchEvent) run(ctx context.Context, sender tracing.ISenderHandle) {
 	defer sender.Done()
+	defer evt.running.Store(false)
 
 	for {
 		select {
@@ -94,6 +96,13 @@ func (evt *catchEvent) run(ctx context.Context, sender tracing.ISenderHandle) {
 }
 
 func (evt *catchEvent) ConsumeEvent(ev event.IEvent) (result event.ConsumptionResult, err error) {
+	// A node whose goroutine is not running holds no token and reads nothing from its
+	// inbox: the event cannot concern it, and queueing it would eventually block the
+	// caller (and every consumer behind this one) for good.
+	if !evt.running.Load() {
+		result = event.Consumed
+		return
+	}
 	evt.mch <- processEventMessage{event: ev}
 	result = event.Consumed
 	return
@@ -102,6 +111,7 @@ func (evt *catchEvent) ConsumeEvent(ev event.IEvent) (result event.ConsumptionRe
 func (evt *catchEvent) NextAction(ctx context.Context, flow Flow) chan IAction {
 	evt.once.Do(func() {
 		sender := evt.tracer.RegisterSender()
+		evt.running.Store(true)
 		go evt.run(ctx, sender)
 	})
 
